@@ -998,6 +998,16 @@ func genCase(t *rapid.T) Case {
 			c.Direct = rapid.IntRange(-1, 0).Draw(t, "direct")
 		}
 
+	case branch == 94: // JBIG2 Huffman symbol dictionary, one aggregate symbol per height class
+		c.Origin = "jbig2-symdict"
+		n := rapid.SampledFrom([]int{2000, 3000, 4000}).Draw(t, "nsyms")
+		body = symDictAggStream(n)
+		c.Half = symDictAggStream(n / 2)
+		c.Tags = []string{"jbig2-symdict/huffman-refagg-many-height-classes"}
+		c.ExpectOut = 1
+		setChain([]string{"JBIG2Decode"}, nil)
+		c.Direct = 0
+
 	case branch >= 91 && branch < 94: // JBIG2 symbol dictionary + text region segments
 		c.Origin = "jbig2-text"
 		ts := textSpec{
@@ -1243,7 +1253,7 @@ func genCase(t *rapid.T) Case {
 		body = body[:maxBody]
 	}
 	c.Body = body
-	if c.Origin != "big-raw" && rapid.IntRange(0, 24).Draw(t, "shape") == 0 {
+	if c.Origin != "big-raw" && c.Origin != "jbig2-symdict" && rapid.IntRange(0, 24).Draw(t, "shape") == 0 {
 		// larger raw lengths unlock larger budgets
 		if rapid.Bool().Draw(t, "rep") && len(body) > 0 {
 			c.Rep = rapid.IntRange(1, max(1, min(50, (1<<20)/len(body)))).Draw(t, "reps")
@@ -1259,7 +1269,7 @@ func genCase(t *rapid.T) Case {
 	if strings.HasPrefix(c.Origin, "ccitt-bomb") && c.Mode != 0 && rapid.IntRange(0, 3).Draw(t, "drainbomb") != 0 {
 		c.Mode = 0
 	}
-	if c.ProgScans != 0 || strings.HasSuffix(c.Origin, "-over-bomb") || c.Origin == "jbig2-halftone" || c.Origin == "jbig2-text" || c.Origin == "big-raw" {
+	if c.ProgScans != 0 || strings.HasSuffix(c.Origin, "-over-bomb") || c.Origin == "jbig2-halftone" || c.Origin == "jbig2-text" || c.Origin == "big-raw" || c.Origin == "jbig2-symdict" {
 		c.Mode = 0
 	}
 	if c.ProgScans < 0 {
@@ -2034,4 +2044,98 @@ func jbig2RetainedRegions(n int) []byte {
 		body = append(body, tr...)
 	}
 	return body
+}
+
+// ---------------------------------------------------------------------------
+// JBIG2 Huffman symbol dictionary with aggregate symbols
+
+// bitSink collects bits, most significant first.
+type bitSink struct {
+	out  []byte
+	acc  uint64
+	nacc uint
+}
+
+func (w *bitSink) put(v uint64, n int) {
+	for i := n - 1; i >= 0; i-- {
+		w.acc = w.acc<<1 | v>>uint(i)&1
+		w.nacc++
+		if w.nacc == 8 {
+			w.out = append(w.out, byte(w.acc))
+			w.acc, w.nacc = 0, 0
+		}
+	}
+}
+
+func (w *bitSink) bytes() []byte {
+	if w.nacc > 0 {
+		w.put(0, int(8-w.nacc))
+	}
+	return w.out
+}
+
+// tableB1 writes v with the standard Huffman table B.1 of T.88 (codes from
+// the canonical assignment: "0"+4 bits, "10"+8 bits, "110"+16 bits).
+func (w *bitSink) tableB1(v int) {
+	switch {
+	case v < 16:
+		w.put(0, 1)
+		w.put(uint64(v), 4)
+	case v < 272:
+		w.put(2, 2)
+		w.put(uint64(v-16), 8)
+	default:
+		w.put(6, 3)
+		w.put(uint64(v-272), 16)
+	}
+}
+
+// symDictAggStream builds, with the harness's own bit writer and the code
+// words of the standard tables written out by hand, an embedded JBIG2 stream
+// of a one-symbol dictionary (this one from the library's encoder helper), a
+// Huffman symbol dictionary (SDHUFF=1, SDREFAGG=1, SDHUFFDH = table B.5)
+// with n new symbols in n height classes, each symbol an aggregate of two
+// instances (REFAGGNINST = 2) of input symbol 0, and a 1x1 page.
+func symDictAggStream(n int) []byte {
+	base := bitmap.New(1, 1)
+	base.SetPixel(0, 0, true)
+	baseSD := jbig2.EncodeSymbolDictSegment([]*bitmap.Bitmap{base}, 1)
+
+	flags := uint16(0x0001 | 0x0002 | 1<<2 | 1<<12) // SDHUFF, SDREFAGG, SDHUFFDH=B.5, SDRTEMPLATE=1
+	sd := []byte{byte(flags >> 8), byte(flags)}
+	sd = append(sd, be32(uint32(n))...) // SDNUMEXSYMS
+	sd = append(sd, be32(uint32(n))...) // SDNUMNEWSYMS
+	w := &bitSink{}
+	for i := 0; i < n; i++ {
+		if i == 0 {
+			w.put(0, 1) // B.5: height delta 1
+		} else {
+			w.put(0x7e, 7) // B.5: "1111110" + 8 bits: -255 + 255 = height delta 0
+			w.put(255, 8)
+		}
+		w.put(2, 2)    // B.2: width delta 1
+		w.put(0x3f, 6) // B.2: OOB, end of the height class
+		w.tableB1(2)   // REFAGGNINST = 2
+		idLen := 1
+		for 1<<idLen < 1+i {
+			idLen++
+		}
+		w.put(0, 1)     // B.11: initial STRIPT 1
+		w.put(0, 1)     // B.11: delta T 1
+		w.put(0, 2+7)   // B.6: first S 0
+		w.put(0, idLen) // symbol 0
+		w.put(0, 2+1)   // B.8: delta S 0
+		w.put(0, idLen) // symbol 0
+	}
+	w.tableB1(1) // export flags: one input symbol not exported,
+	w.tableB1(n) // n new symbols exported
+	sd = append(sd, w.bytes()...)
+
+	page := jbig2.WritePageInfo(nil, 1, 1)
+	out := jbig2.WriteSegmentHeader(nil, 0, 0, 1, nil, uint32(len(baseSD)))
+	out = append(out, baseSD...)
+	out = jbig2.WriteSegmentHeader(out, 1, 0, 1, []uint32{0}, uint32(len(sd)))
+	out = append(out, sd...)
+	out = jbig2.WriteSegmentHeader(out, 2, 48, 1, nil, uint32(len(page)))
+	return append(out, page...)
 }
